@@ -453,6 +453,38 @@ def real_cli_matrix():
                 mism.append("%s: target modified on failure" % name)
             if not res["out"].strip():
                 mism.append("%s: no diagnostic" % name)
+    # the other two front ends on the same sources: the playground entry point fails exactly when the CLI does and
+    # otherwise produces the same document; the language server publishes a diagnostic exactly when they fail
+    try:
+        from vcommon import build_wasmdrv, run_wasm
+        import lspdrv
+        drv = build_wasmdrv()
+        lsp = lspdrv.build_lsp()
+        for name, (src, extra, want) in CASES.items():
+            if extra or "use " in src:
+                continue                      # the playground compiles a single text
+            w = run_wasm(drv, src, timeout=30)
+            detail[name]["playground"] = w["status"]
+            cli_ok = detail[name]["rc"] == 0
+            if w["rc"] != 0 or w["status"] is None:
+                mism.append("%s: oal_wasm::compile dies (exit %s)" % (name, w["rc"]))
+            elif (w["status"] == "OK") != cli_ok:
+                mism.append("%s: the CLI %s but the playground entry point %s" % (name, "succeeds" if cli_ok else "fails", "succeeds" if w["status"] == "OK" else "fails"))
+            elif cli_ok:
+                fresh = run_cli(cli, {"main.oal": src}, workdir=os.path.join(rdir, name + ".fresh"))
+                if (fresh["target"] or "").strip() != w["body"].strip():
+                    mism.append("%s: the CLI and the playground entry point produce different documents" % name)
+            d = os.path.join(rdir, name + ".lsp")
+            a = lspdrv.session(lsp, d, {"main.oal": src, "oal.toml": '[api]\nmain = "main.oal"\ntarget = "out.yaml"\n'},
+                               [("open", "main.oal", src), ("sync", "main.oal")], ("main.oal", {"line": 0, "character": 0}))
+            ndiag = sum(len(v) for v in (a.get("diags") or {}).values())
+            detail[name]["lsp_diagnostics"] = ndiag
+            if not a.get("alive"):
+                mism.append("%s: the language server died" % name)
+            elif (ndiag > 0) == cli_ok:
+                mism.append("%s: the CLI %s but the language server published %d diagnostics" % (name, "succeeds" if cli_ok else "fails", ndiag))
+    except Exception as ex:
+        mism.append("playground / language-server comparison could not run: %s" % str(ex)[:120])
     # unwritable target: the write fails -> exit must be failure
     d = os.path.join(rdir, "unwritable")
     os.makedirs(d, exist_ok=True)
